@@ -74,6 +74,7 @@ Definition conditions : list text := map tx [
 (* "" = nothing follows *)
 Definition followers : list text := map tx [
   ""; "group by x"; "order by x"; "limit 1"; "union select 2"; "except select 2"; "having y";
+  "union all select 2"; "except all select 2";
   "returning z"; "into t" ].
 
 Definition sp : text := tx " ".
@@ -119,7 +120,7 @@ Proof.
 Qed.
 Print Assumptions C13_where_fin.
 
-Example where_family_size : List.length (where_family NTop ++ where_family NFrom ++ where_family NWhere) = 162.
+Example where_family_size : List.length (where_family NTop ++ where_family NFrom ++ where_family NWhere) = 198.
 Proof. reflexivity. Qed.
 
 (* the known limit of the family: `order  by` (two blanks) is lexed `order` `by`, not the ORDER BY
